@@ -77,7 +77,8 @@ def check(run, only=None):
     # else/elseif in and out of place, stray closers, split operators) and the balanced/unbalanced tag nestings of the
     # byte-level grammars - the parser, not only the tokeniser, must return on each
     for mod in ("C20_Src", "Mix_Src", "C06_Src"):
-        rr = common.run_tlc(mod, mod + ("_thorough" if thorough and mod != "C20_Src" else ""), env={"VERIF_SEED": run.seed}, timeout=1800)
+        # (the quick configurations at both tiers: the thorough ones belong to C03/C06 and take half an hour each under load)
+        rr = common.run_tlc(mod, mod, env={"VERIF_SEED": run.seed}, timeout=1800)
         sc = [{"id": "C01-s-" + v["id"], "k": "total", "noexec": True, "src": v["srcs"][v["entry"]]} for v in rr["lines"] if "srcs" in v and not v.get("oom")]
         run_cases(run, sc)
         run.traces += len(sc)
